@@ -1,0 +1,7 @@
+//go:build !verif
+// +build !verif
+
+package streams
+
+// verifYield is a no-op unless built with the "verif" tag (see verif_on.go).
+func verifYield(point string) {}
